@@ -57,18 +57,30 @@ def plan(c):
         for n in (4, 5, 6, 7):
             runs.append(("clean-%d" % n, ["-scenario", "clean", "-n", str(n), "-heights", "5", "-seed", seed()]))
         runs.append(("clean-w", ["-scenario", "clean", "-n", "5", "-heights", "4", "-seed", seed(), "-powers", "5,3,3,2,2"]))
-        for i in range(4):
+        for i in range(8):
             runs.append(("split-%d" % i, ["-scenario", "split", "-n", "4", "-heights", "3", "-seed", seed(),
                                           "-hold", str(250 + 100 * i)]))
-        for n in (4, 5, 7):
-            for i in range(2):
+        for n in (4, 5, 6, 7):
+            for i in range(4):
                 runs.append(("equivocate-%d-%d" % (n, i), ["-scenario", "equivocate", "-n", str(n), "-heights", "4", "-seed", seed()]))
         runs.append(("equivocate-w", ["-scenario", "equivocate", "-n", "4", "-heights", "3", "-seed", seed(), "-powers", "3,3,3,4"]))
         for n in (4, 5, 6, 7):
-            for i in range(3):
+            for i in range(6):
                 runs.append(("chaos-%d-%d" % (n, i), ["-scenario", "chaos", "-n", str(n), "-heights", "4", "-seed", seed(), "-byzmode"]))
-        for i in range(2):
+        for i in range(6):
+            # integration-test timeouts: link delays force round changes (engine crashes are retried; partial runs are judged)
+            runs.append(("chaos-tight-%d" % i, ["-scenario", "chaos", "-n", "4", "-heights", "4", "-seed", seed(), "-byzmode",
+                                               "-proposal-ms", "250", "-prevote-delay-ms", "100", "-precommit-delay-ms", "100"]))
+        for i in range(4):
             runs.append(("chaos-nobyz-%d" % i, ["-scenario", "chaos", "-n", "4", "-heights", "4", "-seed", seed()]))
+    if c.tier != "quick":
+        # two more repetitions of the whole thorough plan with fresh seeds
+        base = list(runs)
+        for rep in (1, 2):
+            for name, args in base:
+                a = list(args)
+                a[a.index("-seed") + 1] = seed()
+                runs.append(("%s.rep%d" % (name, rep), a))
     return [(name, args + common) for name, args in runs]
 
 
